@@ -18,6 +18,11 @@ var c03Kinds = []string{"out-push", "in-push", "hashed-out", "none", "none"}
 
 // c03Scenario drives one generated history and returns the world.
 func c03Scenario(r *rand.Rand, conflicts bool) (*txWorld, string, error) {
+	return c03ScenarioOpt(r, conflicts, false)
+}
+
+// c03ScenarioOpt: c11 = restarts use the comparing restart and are more frequent.
+func c03ScenarioOpt(r *rand.Rand, conflicts bool, c11 bool) (*txWorld, string, error) {
 	initial := 3 + r.Intn(5)
 	w, err := newTxWorld(r, verifkit.NewStore(r.Intn(2) == 0), initial, 1+r.Intn(initial))
 	if err != nil {
@@ -117,9 +122,11 @@ func c03Scenario(r *rand.Rand, conflicts bool) (*txWorld, string, error) {
 		case k < 85:
 			w.pumpTxs()
 			fp += "p"
-		case k < 93:
+		case k < 93 || (c11 && k < 100 && r.Intn(2) == 0):
 			w.pumpTxs()
-			if err := w.restart(); err != nil {
+			if c11 {
+				w.c11Restart()
+			} else if err := w.restart(); err != nil {
 				w.find("C11", "C11/restart-failed", err.Error())
 				return w, fp, nil
 			}
